@@ -83,6 +83,39 @@ def history_sims(rep, rng, quick, *, props, reals=("poly-frac", "poly-float"), c
     rep.add_results("hist", res, props=props)
 
 
+def suite_traces(rep, kinds=None):
+    """code -> spec on executions not designed for this framework: the repository's own tests
+    run unmodified under the recorder; TLC validates the traces against TraceGeneric"""
+    from . import tracegen
+    data, tail = tracegen.record_suite()
+    res = tracegen.validate(data)
+    rep.add_tlc("TraceGeneric (repository test-suite: %d traces, %d events; pytest: %s)" % (len(data["traces"]), sum(len(t["events"]) for t in data["traces"]), tail), res if res.clean else res)
+    if not res.clean:
+        return
+    res.ok = True
+    rep.cov["traces_validated_against_impl"] += len(data["traces"])
+    rep.cov["evaluations"] += len(data["traces"])
+    for t in data["traces"]:
+        rep.distinct.add(("suite", t["test"]))
+    if data["traces"]:
+        t = data["traces"][0]
+        rep.cov["samples"].append({"recorded_test": t["test"], "events": [{"ev": e["ev"], "name": e.get("name"), "out": e.get("out"), "operands": [d["id"] for d in e.get("pre", [])],
+                                                                          "result": e.get("res", {}).get("id"), "n_witnesses_in_result": len(e.get("res", {}).get("sig", []))} for e in t["events"][:6]]})
+    for (ti, li) in res.rejected:
+        t = data["traces"][ti - 1]
+        e = t["events"][li - 1] if li - 1 < len(t["events"]) else {}
+        if kinds is None or e.get("ev") in kinds:
+            rep.finding_or_violation("suite/%s/%s:%s" % (t["test"], e.get("ev"), e.get("name")),
+                                     {"what": "an execution of the repository's test-suite is not a behaviour of TraceGeneric", "test": t["test"], "event_index": li,
+                                      "event": {k: v for k, v in e.items() if k not in ("pre", "post", "res")}, "operands": e.get("pre"), "result": e.get("res")})
+    neg = tracegen.corrupt(data)
+    if neg["traces"]:
+        r2 = tracegen.validate(neg, tag="MCTGN")
+        rep.cov["negative_controls_suite"] = {"tried": len(neg["traces"]), "rejected": len({ti for ti, _ in r2.rejected})}
+        if len({ti for ti, _ in r2.rejected}) != len(neg["traces"]):
+            rep.machinery.append("negative control accepted by TraceGeneric: %r vs %r" % ([t["corrupted"] for t in neg["traces"]], r2.rejected))
+
+
 def nontrivial_pair(r):
     row = r.get("row")
     if not row:
@@ -186,6 +219,7 @@ def check_C01(tier, rng, rep):
     # (d) code -> spec: recorded random programs validated by TLC
     trace_engine(rep, [rng.choice(U2[2:]), rng.choice(["U3hole", "U3chain"])] if quick else U2[2:] + U3, ["poly-frac", "poly-float"] if quick else POLY + CURVED[:2],
                  ntr=16 if quick else 60, nsteps=10, acts_for_prop={"Bin", "Inv"}, gens=(), maxframe=0)
+    suite_traces(rep, kinds={"bin", "inv"})
     rep.assumptions += [
         "witness points are classified in the rational pre-image of the realisation (exact); projection uses one witness per inner cell plus far points",
         "operands of the one-step corpus are built with the direct constructors (C19's subject)",
@@ -401,6 +435,7 @@ def check_C08(tier, rng, rep):
     rep.add_results("pairs", res, nontrivial=nontrivial_pair)
     trace_engine(rep, [rng.choice(U2[2:]), rng.choice(U3)] if quick else U2[2:] + U3, ["poly-frac", "poly-float"] if quick else POLY + CURVED[:2],
                  ntr=16 if quick else 60, nsteps=12, acts_for_prop=None, seed_offset=800)
+    suite_traces(rep)
     return rep.finish(tier, rule="TLC -simulate behaviours (make/mkreg/bin/inv/copy/invert/transform/alias/query/drop, depth 11) replayed with bit-exact snapshots of every bystander object, identity structure (aliasing, singletons) and id-disjointness of distinct objects after every step; plus operands of the one-step operator corpus", exhaustive=False)
 
 
